@@ -36,7 +36,8 @@ CHECKS = {
              "the host-visible output and outcome; the rendered source is analysed, compiled and run on the real VM "
              "and must produce exactly that output and outcome.",
         note="Trusted: HmsSem as the reading of the language description, the renderer, TLC. Integers < 2^30 and "
-             "dyadic floats only (64-bit boundaries: HmsInt64 family).",
+             "dyadic floats only (64-bit boundaries incl. integer powers: HmsInt64 family; nan, infinities and signed zeros under "
+             "comparison and arithmetic: HmsFloat family). Threads whose functions are pure are run by HmsSem at their join.",
         design="5/C01"),
     "C04": dict(
         technique="TLA+ source semantics (HmsSem) as common oracle for both backends plus direct VM/interpreter "
@@ -82,7 +83,11 @@ CHECKS = {
              "goroutines are forced through them (gates in the hooks); free-running executions of programs spawning "
              "1..8 cores under GOMAXPROCS 1..16 with seeded yields are recorded; every trace must be a behaviour of "
              "the spec with all invariants holding after every event; outputs must be an interleaving of the per-core "
-             "line sequences; the same programs run under -race.",
+             "line sequences; the same programs run under -race. HmsCores also models the joiner (h.join(): JoinSound, "
+             "JoinEndsAfterThread, NoJoinerLeft, JoinsEnd under fairness) and WaitNonConsuming beside Wait (WatchSound, "
+             "WatchReturns under strong fairness of the write-lock acquisitions; the watcher as found is refuted); join "
+             "programs (order, twice, never, nested, failing threads) and watched runs are traced and validated, "
+             "schedules with joins are replayed.",
         note="Go scheduler interleavings are sampled, the model is exhaustive; data races are observed by the race "
              "detector (auxiliary monitor). Known finding: unsynchronised pushes to a list held in a global.",
         design="5/C17"),
